@@ -645,7 +645,8 @@ def mapkind_rule(ctx):
             ctx.touched(b)
             ctx.ob('MAPKIND', '%s/%s' % (short_fn(fn_label(b)).split(' as ')[-1].replace('>', ''), 'Map'), ok, short_loc(b.span),
                    '%s on a map: %d block step(s) (want %d), %d key/value write(s) (want %d), the step before them; other output: %s' % (b.name, len(steps), ws, len(vals), wv, other or 'none'))
-    ctx.floor('MAPKIND', 'presentations of a map entry', n, 4)
+    # (serialize_entry may be left to serde's default: key, then value)
+    ctx.floor('MAPKIND', 'presentations of a map entry', n, 3)
 
 
 KIND = 'ser::serializer::seq_or_tuple::Kind'
